@@ -292,6 +292,34 @@ Proof.
   - unfold atoms_of_trigger, etrig. cbn. rewrite Hk, Hs. left. reflexivity.
 Qed.
 
+(* direct forwarding `return f()`: F3 forwards F1 (respects the convention), F4 forwards F2 (does not);
+   F0: x, e = F3(); if e != nil { return nil }; x.V     clean
+       x, e = F4(); if e != nil { return nil }; x.V     reported, and panics *)
+Definition mk_fwd_prog (body : stmt) : program :=
+  {| p_funcs := [ {| f_nparams := 0; f_body := body |}; fd_err_ok; fd_err_bad;
+                  {| f_nparams := 0; f_body := SRetCall 7 1 [] |}; {| f_nparams := 0; f_body := SRetCall 8 2 [] |} ];
+     p_ginit := []; p_impls := [] |}.
+Definition ex_fwd_ok := mk_fwd_prog (SSeq (SCall2 1 (Some (VL 0)) (Some (VL 50)) 3 []) (chk 0 50 1)).
+Definition ex_fwd_bad := mk_fwd_prog (SSeq (SCall2 1 (Some (VL 0)) (Some (VL 50)) 4 []) (chk 0 50 1)).
+
+Example err_forwarding :
+  nconf ex_fwd_ok = Some 0 /\ nconf ex_fwd_bad = Some 1 /\
+  panic_of (run_program ex_fwd_bad 20 [true]) = Some 1 /\
+  (forall o, In o [[true]; [false]] -> panic_of (run_program ex_fwd_ok 20 o) = None).
+Proof. vm_compute. repeat split; try reflexivity. intros o [<-|[<-|[]]]; reflexivity. Qed.
+
+Example err_forwarding_premises :
+  exists r res, analyze_program 8 no_ctr one_pkg ex_fwd_ok = Some r /\ r_gsafe r = true /\ r_clocal r = true /\
+    r_nodel r = true /\ wf_program ex_fwd_ok = true /\
+    analyze_pkg all_exported 200 [] [] (all_triggers r) = Finished res /\ r_conflicts res = [].
+Proof. ex_solve. Qed.
+
+(* `return g(args)` in f: the callee's result site flows into f's, and f is never "always safe" *)
+Lemma retcall_triggers ng ctr sp f fuel e cs g args :
+  exists r, analyze ng ctr sp f fuel (SRetCall cs g args) e = Some r /\
+            In (mk_trigger 0 (PSite (SResult g)) (CSite (SResult f))) (a_trig r) /\ a_rsafe r = false /\ a_env r = None.
+Proof. eexists; split; [reflexivity|]. cbn. split; [apply in_or_app; right; left; reflexivity|auto]. Qed.
+
 (* the triggers of the two kinds of return, and of a checked / unchecked use *)
 Lemma return2_triggers ng ctr sp f fuel e a :
   (exists r, analyze ng ctr sp f fuel (SReturn2 a ANil) e = Some r /\
